@@ -117,14 +117,19 @@ class Planner:
     def plan(self, cmds):
         fen = "rnbqkbnr/pppppppp/8/8/8/8/PPPPPPPP/RNBQKBNR w KQkq - 0 1"
         searching, artifact = "0", "0"
+        run_ok = "1"            # does the running search end without a panic?  "1" for a legal root (C04), "?" otherwise
+        art_unknown = False     # the stored artifact came (or not) from a search whose fate the model cannot know
         steps = []
         for cmd, delay in cmds:
             first = cmd.split()[0] if cmd.split() else ""
             has_book, lans = "0", None
+            new_ok = "1"
             if first == "go":
                 has_book = "0" if self.har.ask("book " + fen) == "none" else "1"
                 lans = self.legal_lans(fen)
-            m, _ = self.model(f"uci {wee_hex(cmd)} {searching} {artifact} {has_book} {fen}")
+                new_ok = "1" if self.model("legalpos " + fen)[1] == "1" else "?"
+            was_searching = searching
+            m, _ = self.model(f"uci {wee_hex(cmd)} {searching} {artifact} {has_book}:{'1' if run_ok == '1' else '0'}:{'1' if new_ok == '1' else '0'} {fen}")
             st = {"cmd": cmd, "delay": delay, "first": first, "fen_before": fen, "lans": lans, "panic": m == "panic",
                   "lines": [], "join": False, "book": False, "search": None, "quit": False}
             if m != "panic":
@@ -139,7 +144,14 @@ class Planner:
                         st["book"] = True
                     elif tok.startswith("search:"):
                         st["search"] = tok
-            st.update(fen_after=fen, searching=searching, artifact=artifact)
+            if m != "panic":
+                if st["join"] and was_searching == "1" and run_ok == "?":
+                    art_unknown = first != "ucinewgame"
+                if first == "ucinewgame" or st["search"]:
+                    art_unknown = False       # dropped / taken by the new search
+                if st["search"]:
+                    run_ok = new_ok
+            st.update(fen_after=fen, searching=searching, artifact="?" if art_unknown else artifact)
             steps.append(st)
             if st["quit"]:
                 break
@@ -224,6 +236,9 @@ def run_session(exe, steps, eof=False, sync_timeout=120, capture=None, strict_be
                 note(f".state shows {ff} but the session model says {st['fen_after']}")
         traces = [l for l in errs if l.startswith("verif-state")]
         want = f"verif-state searching={'true' if st['searching'] == '1' else 'false'} artifact={'true' if st['artifact'] == '1' else 'false'}"
+        if st["artifact"] == "?" and traces:
+            # a search of an illegal position may or may not have panicked: either artifact flag is accepted
+            want = want.split(" artifact=")[0] + " artifact=" + traces[-1].split(" artifact=")[-1]
         if not traces:
             note(f"no state trace after `{cmd[:60]}`")
         elif traces[-1] != want:
